@@ -44,7 +44,7 @@ pub fn ident_name(cfg: &ExprCfg) -> BoxedStrategy<String> {
 
 pub fn string_value(rich: bool) -> BoxedStrategy<String> {
     if !rich {
-        return prop_oneof![Just("".to_string()), Just("a".to_string()), Just("ab".to_string()), Just("0".to_string()), Just(" ".to_string())].boxed();
+        return prop_oneof![4 => Just("".to_string()), 4 => Just("a".to_string()), 4 => Just("ab".to_string()), 4 => Just("0".to_string()), 4 => Just(" ".to_string()), 1 => Just("a\nb".to_string())].boxed();
     }
     let palette: Vec<char> = vec![
         'a', 'b', 'Z', '0', '7', ' ', '\'', '"', '\\', '{', '}', '<', '>', '&', ';', '\n', '\t', '\r', '\u{0}', '\u{1}', '\u{7f}', '\u{a0}', 'é', '中', '😀', '\u{2028}',
